@@ -447,23 +447,29 @@ def _precedence_work(chunk):
             if option == 'comments' and want is None and not (hs or hd or hp):
                 pass
             layers = {'compile_time_setting': S_, 'directive': dv if hd else None, 'parse_time_setting': P_}
-            for who in ('model', 'generated parser'):
+            # the parse-time layer is given as keyword settings, or inside a configuration object (`config=ParserConfig(...)`,
+            # which is how tatsu.parse() and the command line pass it on): an object that does not mention the option must
+            # leave it to the layers below
+            for who, carrier in itertools.product(('model', 'generated parser'), ('keywords', 'config object')):
                 stats['cases'] += 1
                 if hs + hd + hp >= 2:
                     stats['nontrivial'] += 1
                 try:
+                    from tatsu.config import ParserConfig
+                    kw = (lambda: dict(P_)) if carrier == 'keywords' else (lambda: {'config': ParserConfig(**P_)})
                     if who == 'model':
                         m = tatsu.compile(text, **S_)
-                        parse = lambda t, m=m: m.parse(t, **P_)  # noqa: E731
+                        parse = lambda t, m=m: m.parse(t, **kw())  # noqa: E731
                     else:
                         _src, cls = load_generated(text, **S_)
-                        parse = lambda t, cls=cls: cls().parse(t, **P_)  # noqa: E731
+                        parse = lambda t, cls=cls: cls().parse(t, **kw())  # noqa: E731
                     got = probe(parse, ptext)
                 except tatsu.exceptions.GrammarError as e:
                     got = False if option == 'left_recursion' else ('compile-error', f'GrammarError: {str(e)[:60]}')
                 except Exception as e:  # noqa: BLE001
                     got = ('compile-error', f'{type(e).__name__}: {str(e)[:60]}')
-                w = {'grammar': text, 'layers': layers, 'parser': who, 'probe': ptext or 'one input per candidate value'}
+                w = {'grammar': text, 'layers': layers, 'parser': who, 'parse_time_settings_given_as': carrier,
+                     'probe': ptext or 'one input per candidate value'}
                 if option == 'comments' and want is None:
                     ok = got is None
                 else:
@@ -472,7 +478,14 @@ def _precedence_work(chunk):
                     if len(samples) < 2 and hs + hd + hp == 3 and who == 'model':
                         samples.append({**w, 'observed': repr(got)})
                     continue
-                failures.append({'witness': w, 'cls': _precedence_class(option, who, hs, hd, hp, sv, dv, pv, default, got, want),
+                cls_ = _precedence_class(option, who, hs, hd, hp, sv, dv, pv, default, got, want)
+                if carrier == 'config object':
+                    ok_kw = [f for f in failures if f['cls'] == cls_]
+                    if not ok_kw:
+                        # the same layers given as keywords behave: the configuration object is what changes the outcome
+                        cls_ = f"{'model' if who == 'model' else 'generated'}/config-object-resets-{option}-to-its-built-in-default" \
+                            if not hp else cls_ + '/via-config-object'
+                failures.append({'witness': w, 'cls': cls_,
                                  'detail': f'{who}: option {option}: layers {layers}; the highest layer present says {want!r}, '
                                            f'observed through parsing: {got!r}'})
     return stats, _keep(failures, 4), samples[:2]
